@@ -27,6 +27,27 @@ Units ==
   \cup [k : {"DATA"}, pc : {32, 39, 48}, npo : {"exact", "beyond"}, len : {3}]
   \cup [k : {"UNK"}, pc : {64, 8}]
   \cup [k : {"EOS"}, offs : {"zero", "junk"}, prefix : {"ok", "bad"}]
+(* units that carry one huge exp-Golomb value (DeserOps!BigClasses) in a field that does not steer   *)
+(* the parse: a sequence header field, a custom quantisation matrix entry, a slice coefficient      *)
+(* (first / last of a component, either sign)                                                       *)
+SHBigPos == {"minor_version", "level", "frame_rate_denom", "pixel_aspect_ratio_numer", "clean_left_offset",
+             "color_diff_excursion"}
+CoeffPos == {"first", "first_neg", "last_neg"}
+BigUnits ==
+       [k : {"SH"}, ver : {3}, idx : {"known"}, bvf : {"custom"}, align : {"zero"}, big : BigClasses, pos : SHBigPos]
+  \cup [k : {"PIC"}, prof : {"ld", "hq"}, sl : {"exact"}, align : {"zero"}, big : BigClasses,
+        pos : CoeffPos \cup {"quant_matrix"}]
+  \cup [k : {"FRAG0"}, prof : {"ld", "hq"}, pcx : {"std"}, big : BigClasses, pos : {"quant_matrix"}]
+  \cup [k : {"FRAGN"}, prof : {"hq"}, sl : {"exact"}, at : {"in"}, big : BigClasses, pos : CoeffPos]
+(* a huge-value unit is explored after every plain unit (in every state: these reach every live      *)
+(* state of the outcome machine) and at the start, and is followed by the end of the stream or a     *)
+(* plain end of sequence: the outcome machine does not depend on the payload, and without this the  *)
+(* exploration would be quadratic in the 532 huge-value units                                       *)
+PlainUnits == {[k |-> "SH", ver |-> 3, idx |-> "known", bvf |-> "custom", align |-> "zero"],
+               [k |-> "PIC", prof |-> "ld", sl |-> "exact", align |-> "zero"],
+               [k |-> "PIC", prof |-> "hq", sl |-> "exact", align |-> "zero"],
+               [k |-> "FRAG0", prof |-> "ld", pcx |-> "std"], [k |-> "FRAG0", prof |-> "hq", pcx |-> "std"],
+               [k |-> "EOS", offs |-> "zero", prefix |-> "ok"]}
 Ends == {"clean", "trail", "cut"}
 
 (* predicted outcome if the byte string ends cleanly here / after one more plain EOS unit *)
@@ -37,16 +58,20 @@ CloseWith(s) == IF Live(s) THEN Step(s, PlainEOS) ELSE s
 Init == st = Start /\ ended = FALSE /\ pre = Start /\ inp = [k |-> "INIT"] /\ hist = <<>>
 
 Feed(u) == /\ ~ended /\ Live(st) /\ Len(hist) < MaxLen
+           /\ (HasBig(u) => inp \in PlainUnits \cup {[k |-> "INIT"]})
+           /\ (HasBig(inp) => u \in PlainUnits /\ u.k = "EOS")
            /\ st' = Step(st, u) /\ ended' = FALSE
            /\ pre' = st /\ inp' = u
            /\ hist' = Append(hist, [u |-> u, out |-> st'.out, dev |-> DeviationNegativeLength(u),
-                                     fin |-> FinOut(st'), closed |-> FinOut(CloseWith(st'))])
+                                     fin |-> FinOut(st'), closed |-> FinOut(CloseWith(st')),
+                                     code |-> IF HasBig(u) THEN BigCode(u.big) ELSE <<>>,
+                                     val |-> IF HasBig(u) THEN BigValue(u.big) ELSE <<>>])
 End(how) == /\ ~ended /\ Len(hist) >= 1
             /\ st' = IF Live(st) THEN Finish(st, how) ELSE st
             /\ ended' = TRUE /\ pre' = st /\ inp' = [k |-> "END", how |-> how]
             /\ hist' = Append(hist, [u |-> inp', out |-> st'.out, dev |-> FALSE,
-                                      fin |-> st'.out, closed |-> st'.out])
-Next == (\E u \in Units : Feed(u)) \/ (\E h \in Ends : End(h))
+                                      fin |-> st'.out, closed |-> st'.out, code |-> <<>>, val |-> <<>>])
+Next == (\E u \in Units \cup BigUnits : Feed(u)) \/ (\E h \in Ends : End(h))
 Spec == Init /\ [][Next]_vars
 View == <<pre, inp, st, ended>>
 
@@ -58,5 +83,17 @@ FoldAgree == ~ended => st = Run(Fed, Len(Fed))
 CompleteIff == ended => ((st.out = "complete") <=> (WellFormed(Fed) /\ inp.how = "clean"))
 (* nothing is read after a failure *)
 Absorbing == [][~Live(st) /\ ~ended => st'.out = st.out]_vars
+(* the codes of the huge-value classes: well-formed, read back completely by the reader's loop, and  *)
+(* with the closed forms their names promise                                                        *)
+ASSUME BigCodesSound ==
+  \A c \in BigClasses :
+     LET code == BigCode(c) v == BigValue(c) IN
+     /\ BWellFormed(v) /\ ReadsAs(code, c.k, c)
+     /\ BLe(BSub(BPow2(c.k), <<1>>), v) /\ BLt(BAdd(v, <<1>>), BPow2(c.k + 1))
+     /\ (c.pat = "zeros" => BEq(BAdd(v, <<1>>), BPow2(c.k)))
+     /\ (c.pat = "ones"  => BEq(BAdd(v, <<2>>), BPow2(c.k + 1)))
+     /\ (c.pat = "ones0" => BEq(BAdd(v, <<3>>), BPow2(c.k + 1)))
+(* distinct classes are distinct values *)
+ASSUME BigCodesDistinct == \A c, d \in BigClasses : c # d => ~BEq(BigValue(c), BigValue(d))
 OutcomeTotal == st.out \in {"open", "boundary", "raises", "eof", "complete"}
 =============================================================================
